@@ -420,11 +420,7 @@ fn model<'a>(wd: &'a W, stats: &'a Mutex<Stats>) -> PoolModel<'a> {
                 Op::Inc { pos, liq, .. } => liq_oracle(wd, pre, st, *pos as usize, *liq, true, &mut local),
                 Op::Dec { pos, part, .. } => {
                     let cur = w.positions[*pos as usize].state(pre).liquidity;
-                    let amt = match part {
-                        Part::All => cur,
-                        Part::Half => cur / 2,
-                        Part::One => 1.min(cur),
-                    };
+                    let amt = part.amount(cur);
                     liq_oracle(wd, pre, st, *pos as usize, amt, false, &mut local)
                 }
                 _ => Ok(()),
